@@ -197,7 +197,10 @@ class FileCache:
         bool: True if the claim is achieved, False otherwise
         """
         assert self.file_futures_lock.locked()
-        assert claim <= self.max_memory
+        if claim > self.max_memory:
+            # the processed contents may need more memory than the file has bytes (a DataFrame):
+            # such an entry cannot be cached at all
+            return False
         # start_mem = self.current_memory_usage
         writing = None
         while (self.current_memory_usage + claim) > self.max_memory and len(self.file_access_times) > 0:
